@@ -247,6 +247,7 @@ def _generated(rng, tier, focus, allow_degenerate=True):
                 restr.append([i, j] if start_fixed else [j, i])
             tr["restraints"] = restr
             tr["two_piece_mobile"] = True
+            tr["n_steps"] = min(tr["n_steps"], 60)      # tie moves are always accepted: long budgets only cost time here
             if tr["deform"] is not None and 2 not in tr["deform"]:
                 tr["deform"] = tr["deform"] + [2]
     return tr
